@@ -36,3 +36,70 @@ def check(ctx):
     for r, n in sorted(by_rule.items()):
         ctx.count('discharged_by_' + r, n)
     ctx.count('panic_capable_sites', len(L.sites))
+
+
+def clippy_hits(repo):
+    """Run the restriction lints that flag panic-capable constructs; returns [(lint, file, line)]. A census cross-reference, not a verdict."""
+    import json, os, subprocess
+    from .. import extract
+    env = dict(os.environ)
+    env['CARGO_NET_OFFLINE'] = 'true'
+    env['CARGO_TARGET_DIR'] = os.path.join(extract.CACHE, 'target-clippy')
+    env.pop('RUSTC_WRAPPER', None)
+    env.pop('RUSTFLAGS', None)
+    cmd = ['cargo', '+nightly', 'clippy', '--offline', '--lib', '--manifest-path', os.path.join(repo, 'Cargo.toml'), '--message-format=json', '--',
+           '-A', 'clippy::all', '-W', 'clippy::unwrap_used', '-W', 'clippy::expect_used', '-W', 'clippy::panic', '-W', 'clippy::indexing_slicing',
+           '-W', 'clippy::arithmetic_side_effects', '-W', 'clippy::unreachable']
+    # force a re-lint of the crate itself
+    subprocess.run(['touch', os.path.join(repo, 'src', 'lib.rs')])
+    r = subprocess.run(cmd, env=env, capture_output=True, text=True)
+    hits = []
+    for l in r.stdout.splitlines():
+        try:
+            m = json.loads(l)
+        except Exception:
+            continue
+        if m.get('reason') != 'compiler-message':
+            continue
+        msg = m['message']
+        code = (msg.get('code') or {}).get('code', '')
+        if not code.startswith('clippy::'):
+            continue
+        sp = [s for s in msg['spans'] if s.get('is_primary')]
+        if sp:
+            hits.append((code, sp[0]['file_name'], sp[0]['line_start'], sp[0]['line_end']))
+    return hits, r.returncode
+
+
+_check_ledger = check
+
+
+def check(ctx):
+    _check_ledger(ctx)
+    if ctx.tier != 'thorough' or ctx.config != 'default':
+        return
+    from .. import extract
+    hits, rc = clippy_hits(extract.REPO)
+    if not hits:
+        ctx.skip('C16/clippy', 'clippy produced no output (exit %s): cross-reference not available' % rc)
+        return
+    L = panic.Ledger(ctx)
+    lines = set()
+    for s in L.sites:
+        sp = s['span']
+        if sp:
+            lines.add((sp['file'], sp['line']))
+        # statement-level spans of the same block
+        b = s['body']
+        for st in b.blocks[s['block']]['stmts']:
+            if st.get('span'):
+                lines.add((st['span']['file'], st['span']['line']))
+    missing = []
+    for code, fn, l0, l1 in hits:
+        if not any((fn, l) in lines for l in range(l0, l1 + 1)):
+            missing.append((code, fn, l0))
+    if missing:
+        for code, fn, l0 in missing[:10]:
+            ctx.fail('C16/clippy', '%s:%d' % (fn, l0), 'clippy %s flags a panic-capable construct that the MIR ledger does not list (census gap)' % code, key='C16/clippy|%s|%s|%d' % (code, fn, l0), rule='PANIC/CENSUS-GAP')
+    else:
+        ctx.ok('C16/clippy', '-', 'cross-reference: all %d sites flagged by clippy\'s unwrap_used/expect_used/panic/indexing_slicing/arithmetic_side_effects/unreachable lints are in the MIR ledger (%d ledger sites)' % (len(hits), len(L.sites)))
